@@ -147,15 +147,16 @@ PROPS = {
         "explanation": "theorems: refinement of the slab store to a reference registry for every call and history, freshness of handed-out indices, value stability, count arithmetic, two-phase atomicity, interleavings = sequential order of completion sections; correspondence on a long history + threaded run",
     },
     "C17": {
-        "trusted_base": COMMON_TB + ["space morphology: independent brute-force oracle in the harness (flat cell set + cdshealpix::nested::neighbours) — implementation-vs-oracle, no Lean model"],
+        "trusted_base": COMMON_TB + ["space morphology: the Lean model is parametrised by an adjacency relation given as data; the harness sends the neighbour lists of cdshealpix::nested::neighbours (depths 0-2, with and without vertex neighbours) — the HEALPix geometry itself is trusted, not modelled",
+            "an independent brute-force oracle in the harness (flat cell set + the same neighbour lists) double-checks the same operations and is the only check of fill_holes"],
         "assumptions": COMMON_ASSUME + [
-            "HEALPix neighbour geometry (cdshealpix) is not modelled: expanded/contracted/borders/split/fill_holes of SPACE MOCs are only tested against the oracle at depths 0-2 (labelled test, counted under space-op:*)",
+            "HEALPix neighbour geometry (cdshealpix) is a parameter of the model; space MOCs are exercised at depths 0-2 (12 / 48 / 192 cells), where the flat cell set is small enough to compare; fill_holes is oracle-only (test level)",
             "tf_contracted = complement∘expanded∘complement is checked by evaluating the definition with the proved operators on every generated case (op tf_con_def), not proved in general"],
         "rule": "Time and Frequency x u16/u32/u64: EVERY MOC of the whole-domain universe at depth 2 (8 cells, 256 MOCs, both domain bounds reached) + samples at depth 3 and boundary-biased "
                 "random MOCs at all depths: expanded, contracted, and the definition not(expanded(not M)) evaluated by the model; space (Hpx u64, depths 0-2: sparse, dense, blobs around "
                 "base-cell corners and poles, empty, full): expanded, contracted, external/internal border, split with both connectivities (exact partition into connected components), "
                 "fill_holes (superset adding whole components) against the oracle. distinct_nontrivial = distinct op lines with a non-empty MOC.",
-        "explanation": "theorems: T/F expanded semantics + canonicity, T/F contracted per range, counterexample for the original formula; space part is oracle testing",
+        "explanation": "theorems: T/F expanded semantics + canonicity, T/F contracted per range, counterexample for the original formula; space: expansion / contraction / borders = their definitions and splitting = a correct partition (cover, closed, connected, separated) for every adjacency and every cell set; correspondence over the cdshealpix adjacency",
     },
     "C19": {
         "needs_bins": True,
